@@ -176,10 +176,10 @@ def run_check(pid, tier):
     exe = build_harness(pid, fl)
     nsh = int(os.environ.get("VF_SHARDS", ck.get("shards", NCPU)))
     deadline = float(os.environ.get("VF_DEADLINE", ck.get("deadline", {}).get(tier, 600 if tier == "quick" else 2400)))
-    outd = os.path.join(BUILD, "out", pid + "_" + tier + TAG)
+    outd = os.path.join(BUILD, "out", "%s_%s%s_%d" % (pid, tier, TAG, os.getpid()))  # per-process: two runs of the same check may overlap
     shutil.rmtree(outd, ignore_errors=True)
     os.makedirs(outd)
-    scratch = os.path.join(BUILD, "scratch", pid + "_" + tier + TAG)
+    scratch = os.path.join(BUILD, "scratch", "%s_%s%s_%d" % (pid, tier, TAG, os.getpid()))
     shutil.rmtree(scratch, ignore_errors=True)
     os.makedirs(scratch, exist_ok=True)
     env = dict(os.environ)
